@@ -32,7 +32,7 @@ import (
 
 type aFile struct {
 	Path string `json:"path"`
-	// file | dir | symlink | hardlink | cont (tar type '7', carries a body) | char | block | fifo.
+	// file | dir | rawdir (directory, name without trailing slash) | symlink | hardlink | cont (tar type '7', carries a body) | char | block | fifo.
 	// A path may occur more than once in one data section (round 2: same-name entries).
 	Type    string `json:"type"`
 	Mode    int64  `json:"mode"`
@@ -132,6 +132,10 @@ func authDataMember(files []aFile) aMember {
 				h.Typeflag = tar.TypeDir
 				h.Name += "/"
 				e.Name, e.Kind = h.Name, "d"
+			case "rawdir":
+				// a directory entry whose name is spelled without the trailing slash (archive/tar keeps it that way)
+				h.Typeflag = tar.TypeDir
+				e.Kind = "d"
 			case "symlink":
 				h.Typeflag = tar.TypeSymlink
 				h.Linkname = f.Link
